@@ -6,6 +6,10 @@ ALL = ['C%02d' % i for i in range(1, 21)]
 
 # id -> (engine, technique, level text, level note, design ref)
 CLAIMED = {
+ 'C11': ('E3-hypothesis', 'model-based property testing (Hypothesis metadata-block generator vs. Python reference model norm_key/norm_val), update sequences through four API families',
+         'Generated metadata blocks (key grammar, hostile values, continuation lines, YAML fences, LF/CRLF, three terminations) are queried through the string, DString, one-shot engine and a long-lived engine; has_metadata/end, key listing, value lookup under equivalent key spellings, update read-back, untouched other keys/body and the complete-HTML header are compared with an independent model. Held on everything generated.',
+         'Trusted: Hypothesis, the Python model in props/c11.py. Documented precedences (URL lines, list items, empty first value, hard-break escape) are excluded by construction.',
+         'DESIGN.md section 5, C11'),
  'C12': ('E3-hypothesis', 'model-based property testing (Hypothesis edit-script generator vs. Python string model), idempotence relation, differential CLI -a/-r leg',
          'Generated CriticMarkup edit scripts (all five mark types, nesting, escapes, paragraph-spanning marks, unmatched markers) are accepted/rejected through the library on the whole string and on sub-ranges and compared byte for byte with an independent model; sampled cases also go through the real CLI. Held on everything generated.',
          'Trusted: Hypothesis, the Python model in props/c12.py, the worker protocol. Text never contains bare braces; CLI leg only without unmatched markers.',
